@@ -90,6 +90,8 @@ class Sim(object):
             return ("val", ["exc", ["errfut", s[1]]])
         if tag == "lazy":
             return ("val", ["ok", ["lazy", s[2]]] if s[1] == "ok" else ["exc", ["lazy", s[2]]])
+        if tag == "slazy":
+            return ("val", ["ok", ["slazy", s[2]]] if s[1] == "ok" else ["exc", ["slazy", s[2]]])
         if tag == "bad":
             return ("val", ["exc", "TypeError"])
         raise AssertionError(tag)
